@@ -140,6 +140,105 @@ def gen_doc(r, sorted_attrs=True, allow_ign=False, size=None):
     return top
 
 
+# ---- internal DTD subset: declared attribute types and defaults (same ATTLIST for the elements DTD_ELEMS)
+# names are taken from ATTRS / sort after them, and the defaulted ones are declared in name order, so that the native
+# order (specified attributes in source order, then the defaults in declaration order) is also the name order of a DOM
+DTD_ELEMS = ("b", "c", "p:e")
+DTD_ATTLIST = [("y", "NMTOKENS", "#IMPLIED"), ("yid", "ID", "#IMPLIED"), ("yp:m", "NMTOKEN", "#IMPLIED"), ("z", "IDREFS", "#IMPLIED"),
+               ("zk", "IDREF", "#IMPLIED"), ("zz1", "CDATA", '"d  v"'), ("zz2", "CDATA", '#FIXED "fx"'), ("zz3", "(p|q|r)", '"q"')]
+DTD_DEFAULTS = [("zz1", "d  v"), ("zz2", "fx"), ("zz3", "q")]
+DTD_TEXT = "".join("<!ATTLIST %s %s>" % (e, " ".join("%s %s %s" % d for d in DTD_ATTLIST)) for e in DTD_ELEMS)
+
+
+def norm_tokens(v):
+    """attribute value normalisation of a non-CDATA type: leading / trailing spaces dropped, runs collapsed"""
+    return " ".join(x for x in v.split(" ") if x)
+
+
+def apply_dtd(r, top, sorted_attrs=True, dup_ids=False):
+    """give the elements DTD_ELEMS typed attributes: unique ID values, IDREF / IDREFS with backward, forward and dangling
+    references, token lists with superfluous spaces.  Returns (tree to serialise, tree the parser must deliver: values
+    normalised, defaulted attributes appended, {ID value: ordinal of its element among the elements})."""
+    ids = []
+
+    def spaced(tokens):
+        return r.choice(["", " ", "  "]) + r.choice([" ", "  ", "   "]).join(tokens) + r.choice(["", " ", "   "])
+
+    def assign(t):
+        if t[0] != "e":
+            return t
+        attrs = list(t[2])
+        if t[1] in DTD_ELEMS:
+            attrs = [a for a in attrs if a[0] not in ("y", "yid", "yp:m", "z", "zk")]
+            if r.random() < 0.7:
+                v = "k%d" % (len(ids) + 1) if not (dup_ids and ids and r.random() < 0.3) else r.choice(ids)
+                ids.append(v)
+                attrs.append(("yid", v))
+        return ("e", t[1], attrs, [assign(k) for k in t[3]])
+    top1 = [assign(t) for t in top]
+    pool = ids + ["nope", "k99"] if ids else ["nope"]
+
+    def refs(t):
+        if t[0] != "e":
+            return t, t
+        raw, exp = list(t[2]), list(t[2])
+        if t[1] in DTD_ELEMS:
+            add = []
+            if r.random() < 0.6:
+                add.append(("zk", spaced([r.choice(pool)])))
+            if r.random() < 0.5:
+                add.append(("z", spaced([r.choice(pool) for _ in range(r.randrange(1, 4))])))
+            if r.random() < 0.4:
+                add.append(("y", spaced(["t%d" % r.randrange(5) for _ in range(r.randrange(1, 4))])))
+            if r.random() < 0.3:
+                add.append(("yp:m", spaced(["tok"])))
+            if r.random() < 0.25:
+                add.append(("zz1", r.choice([" own ", "o  w", ""])))          # CDATA: kept as written
+            raw = raw + add
+            exp = exp + [(n, v if n == "zz1" else norm_tokens(v)) for n, v in add]
+            if sorted_attrs:
+                key = lambda a: (0 if is_nsdecl(a[0]) else 1, a[0].encode("utf-16-be") if not is_nsdecl(a[0]) else b"")
+                raw = sorted(raw, key=key) if all(not is_nsdecl(a[0]) for a in raw) else [a for a in raw if is_nsdecl(a[0])] + sorted([a for a in raw if not is_nsdecl(a[0])], key=lambda a: a[0].encode("utf-16-be"))
+                exp = [a for a in exp if is_nsdecl(a[0])] + sorted([a for a in exp if not is_nsdecl(a[0])], key=lambda a: a[0].encode("utf-16-be"))
+            else:
+                order = list(range(len(raw)))
+                r.shuffle(order)
+                raw, exp = [raw[i] for i in order], [exp[i] for i in order]
+            exp = exp + [(n, v) for n, v in DTD_DEFAULTS if not any(a[0] == n for a in exp)]
+        kids = [refs(k) for k in t[3]]
+        return ("e", t[1], raw, [k[0] for k in kids]), ("e", t[1], exp, [k[1] for k in kids])
+    pairs = [refs(t) for t in top1]
+    raw_top, exp_top = [p[0] for p in pairs], [p[1] for p in pairs]
+    id_map, count = {}, [0]
+
+    def walk(t):
+        if t[0] != "e":
+            return
+        if t[1] in DTD_ELEMS:
+            for n, v in t[2]:
+                if n == "yid" and v not in id_map:
+                    id_map[v] = count[0]
+        count[0] += 1
+        for k in t[3]:
+            walk(k)
+    for t in exp_top:
+        walk(t)
+    return raw_top, exp_top, id_map
+
+
+def split_ids(dump):
+    """'<tree dump> # v=i ...' -> (tree dump, {value: index or None})"""
+    d, sep, ids = dump.partition(" # ")
+    if not sep and dump.endswith(" #"):
+        d = dump[:-2]
+    m = {}
+    for x in ids.split(" "):
+        if x:
+            k, _, v = x.rpartition("=")
+            m[unfld(k)] = None if v == "-" else int(v)
+    return d, m
+
+
 def is_nsdecl(q):
     return q == "xmlns" or q.startswith("xmlns:")
 
@@ -246,6 +345,7 @@ def ref_build(tokens):
     """Python reference of the native builder on an arbitrary event stream (independent of the Coq model):
     returns the expected dump or 'ERR' (text at the top level, a second document element, not well nested)."""
     out, n, stack, buf, root_done = [], [2], [], [""], [False]
+    ids, cands, typed = {}, [], [False]
 
     def item(d, k, name, val):
         out.append("%d:%s:%d:%s:%s" % (d, k, n[0], name, val))
@@ -257,12 +357,25 @@ def ref_build(tokens):
             buf[0] = ""
     for tok in tokens:
         f = tok.split("|")
-        if f[0] == "S":
+        if f[0] in ("S", "A"):
             flush()
             if not stack and root_done[0]:
                 return "ERR"
+            eidx = n[0]
             item(len(stack), "e", f[1], "")
-            attrs = [(unfld(f[i]), unfld(f[i + 1])) for i in range(2, len(f) - 1, 2)]
+            if f[0] == "A":
+                typed[0] = True
+                trip = [(unfld(f[i]), unfld(f[i + 1]), unfld(f[i + 2])) for i in range(2, len(f) - 2, 3)]
+                for a in trip:
+                    if a[1] not in cands:
+                        cands.append(a[1])
+                # the ID table: declared type exactly "ID", the first element registered for a value stays
+                for a in [a for a in trip if is_nsdecl(a[0])] + [a for a in trip if not is_nsdecl(a[0])]:
+                    if a[2] == "ID" and a[1] not in ids:
+                        ids[a[1]] = eidx
+                attrs = [(a[0], a[1]) for a in trip]
+            else:
+                attrs = [(unfld(f[i]), unfld(f[i + 1])) for i in range(2, len(f) - 1, 2)]
             order = [a for a in attrs if is_nsdecl(a[0])] + [a for a in attrs if not is_nsdecl(a[0])]
             if not stack and not any(a[0] == "xmlns:xml" for a in attrs):
                 order = [XML_ATTR] + order
@@ -294,7 +407,12 @@ def ref_build(tokens):
             item(len(stack), "p", f[1], f[2])
     if stack:
         return "ERR"
+    if typed[0]:
+        return " ".join(out) + " #" + "".join(" %s=%s" % (fld(v), ids[v] if v in ids else "-") for v in cands)
     return " ".join(out)
+
+
+ATYPES = ["CDATA", "ID", "ID", "IDREF", "IDREFS", "NMTOKEN", "I", "IDX", "id", "", "ENUMERATION"]
 
 
 def random_events(r):
@@ -305,7 +423,11 @@ def random_events(r):
         k = r.random()
         if k < 0.25:
             attrs = [(a, r.choice(["", "v", " "])) for a in r.sample(["b", "xmlns:p", "z", "xmlns", "A"], r.choice([0, 0, 1, 2, 3]))]
-            ev.append("S|" + fld(r.choice(["a", "b", "p:c"])) + "".join("|%s|%s" % (fld(a), fld(v)) for a, v in attrs))
+            if r.random() < 0.5:
+                # declared types (DTD): duplicate values, several ID attributes, near misses of "ID"
+                ev.append("A|" + fld(r.choice(["a", "b", "p:c"])) + "".join("|%s|%s|%s" % (fld(a), fld(r.choice(["k1", "k2", "k3", "k1 k2", ""])), fld(r.choice(ATYPES))) for a, v in attrs))
+            else:
+                ev.append("S|" + fld(r.choice(["a", "b", "p:c"])) + "".join("|%s|%s" % (fld(a), fld(v)) for a, v in attrs))
             depth += 1
         elif k < 0.45 and depth > 0:
             ev.append("E")
@@ -334,7 +456,7 @@ def esc_attr(s):
             .replace("\n", "&#10;").replace("\r", "&#13;"))
 
 
-def serialise(r, top, variants=True, doctype=False, flags=None):
+def serialise(r, top, variants=True, doctype=False, flags=None, dtd=False):
     """XML text of the document; with variants the text is written with CDATA sections, character
     references and (with doctype) an internal entity reference.  flags collects what was used."""
     flags = flags if flags is not None else set()
@@ -383,8 +505,10 @@ def serialise(r, top, variants=True, doctype=False, flags=None):
     if doctype:
         root = [t for t in top if t[0] == "e"][0][1]
         out.append('<!DOCTYPE %s [<!ENTITY ent "E1"><!ENTITY ent2 "E2"><!NOTATION gif SYSTEM "gif">'
-                   '<!ENTITY pic SYSTEM "http://x/pic.gif" NDATA gif>]>' % root)
+                   '<!ENTITY pic SYSTEM "http://x/pic.gif" NDATA gif>%s]>' % (root, DTD_TEXT if dtd else ""))
         flags.add("doctype")
+        if dtd:
+            flags.add("dtd")
     for t in top:
         walk(t)
         if r.random() < 0.3:
@@ -433,7 +557,7 @@ def node_view(items, drop_doctype=True):
 # T mode: stylesheets
 
 def sheet(body, out='<xsl:output method="xml"/>', top=""):
-    return ('<?xml version="1.0"?><xsl:stylesheet version="1.0" xmlns:xsl="%s" xmlns:p="urn:p" xmlns:q="urn:q" exclude-result-prefixes="p q">'
+    return ('<?xml version="1.0"?><xsl:stylesheet version="1.0" xmlns:xsl="%s" xmlns:p="urn:p" xmlns:q="urn:q" xmlns:yp="urn:p" xmlns:zq="urn:q" exclude-result-prefixes="p q yp zq">'
             '%s<xsl:param name="par" select="\'dflt\'"/><xsl:param name="num" select="0"/>%s%s</xsl:stylesheet>' % (XSLNS, out, top, body))
 
 
@@ -441,7 +565,7 @@ def gen_sheet(r):
     """returns (class, stylesheet text, flags)"""
     enc = r.choice(["UTF-8", "UTF-8", "UTF-16", "ISO-8859-1", "US-ASCII", "UTF-8"])
     out = '<xsl:output method="xml" encoding="%s"/>' % enc
-    k = r.randrange(16)
+    k = r.randrange(18)
     flags = set()
     if k == 0:
         body = ('<xsl:template match="/"><out par="{$par}" num="{$num + 1}"><xsl:for-each select="//node()|//@*">'
@@ -530,6 +654,20 @@ def gen_sheet(r):
         body = ('<xsl:template match="/"><out n="{count(/node())}" p="{count(/*/preceding::node())}" f="{name(/node()[1])}" l="{name(/node()[last()])}" '
                 'ps="{count(/*/preceding-sibling::node())}" u="{unparsed-entity-uri(\'pic\')}" v="{unparsed-entity-uri(\'ent\')}" all="{count(//node())}"/></xsl:template>')
         cls = "doctype-probe"
+    elif k in (16, 17):
+        # id() over ID / IDREF / IDREFS attributes (forward, backward, dangling references), also from a document()-loaded
+        # copy of the source; defaulted / #FIXED attributes and the normalised values of token-list attributes
+        body = ('<xsl:template match="/"><out><a c="{count(id(\'k1\'))}" n="{name(id(\'k2\'))}" m="{count(id(\'k1 k3  nope k2\'))}" '
+                'g="{generate-id(id(\'k1\'))=generate-id((//*[@yid=\'k1\'])[1])}" p="{count(id(\'k2\')/preceding::*)}"/>'
+                '<xsl:for-each select="//*[@zk]"><r v="{@zk}" t="{name(id(@zk))}" i="{id(@zk)/@yid}" p="{count(id(@zk)/preceding::*)}" s="{generate-id(id(@zk))=generate-id(.)}"/></xsl:for-each>'
+                '<xsl:for-each select="//*[@z]"><rs v="{@z}" n="{count(id(@z))}"><xsl:for-each select="id(@z)"><xsl:value-of select="@yid"/>,</xsl:for-each></rs></xsl:for-each>'
+                '<all n="{count(id(//@zk))}" m="{count(id(//@z|//@zk))}" y="{count(id(//@y))}" d="{count(id(//@zz1|//@zz2|//@zz3))}"/>'
+                '<d n="{count(document(\'main.xml\')//*)}"><xsl:for-each select="document(\'main.xml\')"><xsl:value-of select="name(id(\'k1\'))"/>|'
+                '<xsl:value-of select="count(id(\'k2 k3 nope\'))"/>|<xsl:value-of select="count(id(//@zk))"/></xsl:for-each></d>'
+                '<at><xsl:for-each select="//*[@zz2]"><xsl:value-of select="concat(count(@*),\':\',@zz1,\':\',@zz2,\':\',@zz3,\':[\',@y,\']:[\',@z,\']:[\',@yp:m,\'];\')"/></xsl:for-each></at>'
+                '<names><xsl:for-each select="//*[@zz2]/@*"><xsl:value-of select="name()"/>,</xsl:for-each></names></out></xsl:template>')
+        flags.add("u")
+        cls = "id-fn"
     else:
         body = ('<xsl:template match="/"><out par="{$par}" n="{$num * 2}" t="{count(//node())}"><xsl:value-of select="concat($par, \'|\', string($num))"/></out></xsl:template>')
         cls = "params"
@@ -825,8 +963,10 @@ def evaluate(ctx, r, impl, model, xalan, scale, state):
     w_lines, w_info = [], {}
     for i in range(nW):
         flags = set()
-        doctype = r.random() < 0.3
-        top = gen_doc(r, sorted_attrs=(r.random() < 0.7))
+        doctype = r.random() < 0.4
+        w_sorted = r.random() < 0.7
+        top = gen_doc(r, sorted_attrs=w_sorted)
+        id_map = None
         if doctype:
             # text containing the replacement text of the internal entity: serialise() writes some of it as &ent;
             def add_ent(t):
@@ -837,20 +977,25 @@ def evaluate(ctx, r, impl, model, xalan, scale, state):
                     return ("t", t[1][:k] + "E1" + t[1][k:])
                 return t
             top = [add_ent(t) for t in top]
-        xml = serialise(r, top, variants=True, doctype=doctype, flags=flags)
+        if doctype and r.random() < 0.7:
+            # declared attribute types, defaults and ID / IDREF(S) values (unique IDs)
+            raw_top, top, id_map = apply_dtd(r, top, sorted_attrs=w_sorted, dup_ids=(r.random() < 0.2))
+            xml = serialise(r, raw_top, variants=True, doctype=True, flags=flags, dtd=True)
+        else:
+            xml = serialise(r, top, variants=True, doctype=doctype, flags=flags)
         cid = "w%d" % i
         keep = "r" if r.random() < 0.3 else ""
         if keep and "entity" in flags:
             flags.add("entref")
         w_lines.append(("%s W %s %s" % (cid, xml.encode("utf-8", "surrogatepass").hex(), keep)).strip())
-        w_info[cid] = (top, flags, xml)
+        w_info[cid] = (top, flags, xml, id_map)
         ctx.count("W:" + ("+".join(sorted(flags)) or "plain"))
     # entity references that survive as nodes
     for i, xml in enumerate(['<!DOCTYPE a [<!ENTITY e "zz"><!ENTITY f "<b>q</b>">]><a>x&e;y&f;<![CDATA[c]]></a>',
                              '<!DOCTYPE a [<!ENTITY e "zz">]><!--c--><a b="&e;">&e;</a><?p?>']):
         cid = "wr%d" % i
         w_lines.append("%s W %s r" % (cid, xml.encode().hex()))
-        w_info[cid] = (None, {"doctype", "entref"}, xml)
+        w_info[cid] = (None, {"doctype", "entref"}, xml, None)
     res_i = run_robust(impl, w_lines, lambda cid: cid + "/s", orc, "W", 120 * scale)
     m_lines = []
     for cid in w_info:
@@ -861,7 +1006,7 @@ def evaluate(ctx, r, impl, model, xalan, scale, state):
             m_lines.append("%s/n B %s" % (cid, s))
     res_m = core.run_lines_parallel(model, m_lines)[1] if model else {}
     w_by_id = {l.split(" ", 1)[0]: l for l in w_lines}
-    for cid, (top, flags, xml) in w_info.items():
+    for cid, (top, flags, xml, id_map) in w_info.items():
         ctx.cov["evaluations"] += 1
         w, n = res_i.get(cid + "/w"), res_i.get(cid + "/n")
         if w is None or n is None or w == "ERR" or n == "ERR":
@@ -869,11 +1014,24 @@ def evaluate(ctx, r, impl, model, xalan, scale, state):
             continue
         if model:
             ctx.cov["traces_validated_against_impl"] += 2
-            if res_m.get(cid + "/w") != w:
+            if res_m.get(cid + "/w") != split_ids(w)[0]:
                 corr.append({"mode": "W/wrap", "case": xml[:300], "impl": w[:300], "model": (res_m.get(cid + "/w") or "")[:300]})
             if res_m.get(cid + "/n") != n:
                 corr.append({"mode": "W/native-from-recorded-events", "case": xml[:300], "impl": n[:300], "model": (res_m.get(cid + "/n") or "")[:300]})
+        (w, w_ids), (n, n_ids) = split_ids(w), split_ids(n)
         wi, ni = parse_dump(w), parse_dump(n)
+        # oracle 0: getElementById - native table, Xerces DOM and the generated document agree (unique IDs): the value of an
+        # ID attribute finds its element, every other attribute value (IDREF, IDREFS, NMTOKENS, defaults ...) finds nothing
+        w_ord = {it[2]: k for k, it in enumerate([it for it in (wi or []) if it[1] == "e"])}
+        n_ord = {it[2]: k for k, it in enumerate([it for it in (ni or []) if it[1] == "e"])}
+        got_w = {v: w_ord.get(i) for v, i in w_ids.items() if i is not None}
+        got_n = {v: n_ord.get(i) for v, i in n_ids.items() if i is not None}
+        if got_w != got_n:
+            orc.append(("ids", "getElementById differs between the native tree %s and the wrapped Xerces DOM %s (value -> ordinal of the element)" % (got_n, got_w), w_by_id[cid]))
+        elif id_map is not None and got_n != id_map:
+            orc.append(("ids", "getElementById on the native tree %s differs from the ID attributes of the document %s (value -> ordinal of the element)" % (got_n, id_map), w_by_id[cid]))
+        elif id_map is None and top is not None and got_n:
+            orc.append(("ids", "getElementById finds elements in a document without ID attributes: %s" % got_n, w_by_id[cid]))
         # oracle 1: native tree = the generated document
         if top is not None:
             ctx.cov["distinct_nontrivial"] += 1
@@ -997,8 +1155,17 @@ def evaluate(ctx, r, impl, model, xalan, scale, state):
         if astral_text and not STREAM_FIXED[0] and any(ord(ch) > 0xFFFF for ch in str(top)):
             srcflags.add("textastral")      # class K05e (original stream only)
         variants = r.random() < 0.45
-        doctype = r.random() < 0.25 or cls == "doctype-probe"
-        src = serialise(r, top, variants=variants, doctype=doctype, flags=srcflags)
+        doctype = r.random() < 0.25 or cls in ("doctype-probe", "id-fn")
+        if doctype and (cls == "id-fn" or r.random() < 0.6) and not unsorted:
+            # declared attribute types, defaults, unique IDs with forward / backward / dangling references
+            if cls == "id-fn":
+                root = [t for t in top if t[0] == "e"][0]
+                for _ in range(r.randrange(2, 6)):
+                    root[3].insert(r.randrange(len(root[3]) + 1), ("e", r.choice(DTD_ELEMS), [], []))
+            raw_top, _, _ = apply_dtd(r, top, sorted_attrs=True, dup_ids=(r.random() < 0.2))
+            src = serialise(r, raw_top, variants=variants, doctype=True, flags=srcflags, dtd=True)
+        else:
+            src = serialise(r, top, variants=variants, doctype=doctype, flags=srcflags)
         params = []
         if r.random() < 0.5:
             params.append(("par", r.choice(["'v'", "'a b'", "concat('x','y')", "1 div 3"])))
@@ -1043,6 +1210,11 @@ def evaluate(ctx, r, impl, model, xalan, scale, state):
                 samples.append("%s [%s] -> %s" % (c["id"], c["cls"], (ref_bytes[:80] if ref_ok else ref[:2])))
             if c["cls"] in ("failing", "malformed-source") and ref_ok:
                 orc.append(("status", "a transformation that must fail succeeded in the reference form", line))
+            if c["cls"] not in ("failing", "malformed-source") and not ref_ok and "x" in c["flags"]:
+                # (xml method only: the text / html methods legitimately fail on characters the encoding cannot represent)
+                # a generator / stylesheet mistake would make every form fail alike and the case worthless
+                orc.append(("status", "[%s] a transformation that must succeed failed in the reference form: %s" % (
+                    c["cls"], bytes.fromhex(ref[2])[:300] if len(ref) > 2 else ref[:2]), line))
             diffs = []
             ncmp = 0
             for form, v in forms.items():
